@@ -305,6 +305,7 @@ def case_evidence(case, obs):
         'has_db_column': any('db_column' in k for k in kinds),
         'has_type_change': any(k == 'change_field:type' for k in kinds),
         'reuses_name': reuse,
+        'has_useless_initial': any(e.get('useless_initial') for e in edits),
         'n_models_touched': len(set((e.get('model') or e.get('old'))
                                     for e in edits if e['op'] != 'sql')),
     }
